@@ -43,3 +43,10 @@ Definition scripted (L style k : nat) : lister := fun off B =>
   let want := if k =? 0 then B else 1 + ((off * 7 + k) mod B) in
   let n := Nat.min (Nat.min want B) (L - off) in
   (n, (style =? 0) && (off + n =? L)).
+
+(* a paginated backend: at most P entries per call however large the buffer is (a non-final answer shorter than the buffer,
+   with a nil error, is within the contract); style as above *)
+Definition paged (L P style : nat) : lister := fun off B =>
+  if L <=? off then (0, true) else
+  let n := Nat.min (Nat.min P B) (L - off) in
+  (n, (style =? 0) && (off + n =? L)).
